@@ -34,7 +34,7 @@ import (
 //verif:override (github.com/cosmos/cosmos-sdk/x/authz/keeper.Keeper).GetAuthorization -> c04GetAuthorization
 //verif:override (github.com/cosmos/cosmos-sdk/x/authz/keeper.Keeper).SaveGrant -> c04SaveGrant
 //verif:override (github.com/cosmos/cosmos-sdk/x/authz/keeper.Keeper).DeleteGrant -> c04DeleteGrant
-//verif:override github.com/haqq-network/haqq/x/staking/keeper.NewMsgServerImpl -> c04NewMsgServer except=VerifC08_PrecompileDelegate
+//verif:override github.com/haqq-network/haqq/x/staking/keeper.NewMsgServerImpl -> c04NewMsgServer except=VerifC08_PrecompileDelegate,VerifC08_PrecompileCreateValidator
 //verif:override (github.com/cosmos/cosmos-sdk/x/staking/keeper.Keeper).BondDenom -> c04BondDenom
 //verif:override (github.com/cosmos/cosmos-sdk/x/staking/keeper.Keeper).IterateValidators -> c04IterateValidators
 //verif:override (github.com/haqq-network/haqq/precompiles/staking.Precompile).EmitApprovalEvent -> c04EmitApproval
@@ -256,6 +256,10 @@ func VerifC04_Allowance() {
 					}
 				}
 			}
+		}
+		// a grant that exists keeps the expiry it was approved with: neither a spend nor an allowance change may drop or move it
+		if g, ok := c04.grants[c04Key(c04Contract.Bytes(), c04Origin.Bytes(), DelegateMsg)]; ok {
+			zz.Assert(g.exp != nil && g.exp.Equal(ctx.BlockTime().Add(p.ApprovalExpiration)), "a live grant keeps its expiry through every allowance change and spend")
 		}
 		// the stored grant equals the model after every step
 		e, l, v := c04Limit(c04Contract, c04Origin, DelegateMsg)
